@@ -16,10 +16,15 @@ def jobs(tier):
                                   desc='bson parser %s: max_nesting_depth_exceeded iff open documents + 1 > limit' % wn, bound='%d open documents (concrete), any limit, 10 symbolic input bytes' % d))
                 continue
             for c in (0, 1):
-                J.append(dict(id='dlim_%s_%s_%s' % (name, wn, 'close' if c else 'open'), harness='h_dlim', props=['C10'], unwind=12, defs=dict(FMT=f, WHICH=w, CLOSE=c), timeout=300, mem_gb=4,
+                J.append(dict(id='dlim_%s_%s_%s' % (name, wn, 'close' if c else 'open'), harness='h_dlim', props=['C10', 'C07'] if f == 3 else ['C10'], unwind=12, defs=dict(FMT=f, WHICH=w, CLOSE=c), timeout=300, mem_gb=4,
                               desc='%s parser %s: max_nesting_depth_exceeded iff depth+1 > limit, else depth+1 and one state pushed regardless of the claimed length%s%s' % (name, wn, '; end restores' if c else '', '; UBJSON max_items' if f == 3 else ''),
                               bound='any depth 0..limit, any limit, 10 symbolic input bytes'))
     for a in ([0, 1, 2, 3, 4] if tier == 'thorough' else [0, 2, 4]):
         J.append(dict(id='srcread_bytes_a%d' % a, harness='h_srcread_bytes', props=['C10'], unwind=12, defs=dict(AVAIL=a), timeout=300, desc='source_reader<bytes_source>::read: short read, buffer never sized by the claimed length', bound='%d bytes available, any claimed length' % a))
         J.append(dict(id='srcread_iter_a%d' % a, harness='h_srcread_iter', props=['C10'], unwind=12, defs=dict(AVAIL=a), timeout=300, desc='source_reader<iterator_source>::read (remaining()==0 path): buffer grows by at most one chunk at a time', bound='%d bytes available, chunk 1..3, any claimed length' % a))
+    for fn in ((3, 5) if tier != 'thorough' else (0, 1, 2, 3, 4, 5, 6)):
+        for nops in ((2,) if tier != 'thorough' else (2, 3)):
+            J.append(dict(id='srcops_bytes_f%d_o%d' % (fn, nops), harness='h_srcops_bytes', props=['C03'], unwind=12, defs=dict(FN=fn, NOPS=nops), timeout=600, mem_gb=6, desc='bytes_source: any sequence of read/peek/ignore/read_span/read_chunk behaves like array+position', bound='file of %d symbolic bytes, %d operations with symbolic kind and length <= 8' % (fn, nops)))
+            for ch in (1, 2, 3):
+              J.append(dict(id='srcops_iter_f%d_o%d_c%d' % (fn, nops, ch), harness='h_srcops_iter', props=['C03'], unwind=12, defs=dict(FN=fn, NOPS=nops, CHUNK=ch), timeout=600, mem_gb=6, desc='iterator_source (chunk 1..3): same operations, same results as the contiguous model - delivery in chunks is invisible', bound='file of %d symbolic bytes, chunk size %d, %d operations with symbolic kind and length <= 8' % (fn, ch, nops)))
     return J
